@@ -223,3 +223,47 @@ def _(h):
     h.is_type('type', r, SE3)
     E = base.trexp(tw.S)
     h.eq('value = exp(S) T', r.A, matmul(E, x), scale=1e3)
+
+
+# ----------------------------------------------------------------------------- multi-valued left operands
+
+def make2(h, name, tag):
+    a, x = make(h, name, tag + '0')
+    b, y = make(h, name, tag + '1')
+    cls = type(a)
+    if name in POSES:
+        return cls([x, y], check=False)
+    return cls([x, y])
+
+
+for _L in POSES + ['UnitQuaternion', 'Quaternion']:
+    @claim(f'multi:{_L} * arrays')
+    def _(h, L=_L):
+        """a 2-valued left operand times a point, a d x N array, a foreign array: a documented array result or an exception,
+        never None"""
+        A = make2(h, L, 'A')
+        d = 2 if L in ('SO2', 'SE2') else 3
+        for nm, right in (('point', h.vec('p', d, -5, 5)), ('d x 2 (one column per value)', h.mat('P', d, 2, -5, 5)),
+                          ('d x 4', h.mat('Q', d, 4, -5, 5)), ('wrong rows', h.mat('W', d + 2, 3, -5, 5))):
+            try:
+                r = A * right
+            except Exception as e:      # noqa: BLE001
+                from symreal.api import _looks_not_encodable
+                from symreal.core import NotEncodable
+                if isinstance(e, NotEncodable) or _looks_not_encodable(e):
+                    raise
+                h.true(f'{nm}: rejected', True)
+                continue
+            h.true(f'{nm}: result is not None', r is not None)
+            h.true(f'{nm}: result is an ndarray (or a {L})', isinstance(r, np.ndarray) or type(r).__name__ == L)
+
+    for _R in CLASSES:
+        if (_L, '*', _R) in DOCUMENTED or _R == _L:
+            continue
+
+        @claim(f'multi-raise:{_L} * {_R}', tier='quick' if _R in ('SO3', 'SE2', 'Twist3', 'Plucker', 'SpatialVelocity', 'Quaternion') else 'thorough')
+        def _(h, L=_L, R=_R):
+            A = make2(h, L, 'A')
+            b, _ = make(h, R, 'R')
+            h.raises(f'{L}[2] * {R} must raise', lambda: A * b)
+            h.raises(f'{L}[2] + {R} must raise', lambda: A + b)
